@@ -11,3 +11,119 @@ package bitcoin
 //@ func VerifyASN1
 //@   props C07 C12
 //@   ensures result <==> (bip66(sig) && len(digest) == 32 && dersig(sig[0:len(sig)-1]) && dersig_s(sig[0:len(sig)-1]) <= HALFN && ecdsa_ok(fn(os2ip(digest[0:32])), fn(dersig_r(sig[0:len(sig)-1])), fn(dersig_s(sig[0:len(sig)-1])), abs(k.point)))
+//@
+//@ type SchnorrPublicKey
+//@   inv !isnil(self.point) && self.point.isValid && abs(self.point) != O && lift(affy(abs(self.point))) % 2 == 0
+//@   inv len(self.xBytes) == 32 && os2ip(self.xBytes[0:32]) == lift(affx(abs(self.point)))
+//@
+//@ func schnorrTaggedHash
+//@   props C13 C14
+//@   inline
+//@
+//@ func parseSchnorrSignature
+//@   props C13 C14
+//@   inline
+//@
+//@ func verifySchnorrSignatureR
+//@   props C13 C14
+//@   inline
+//@
+//@ func (*SchnorrPublicKey).Verify
+//@   props C13
+//@   option digits
+//@   ensures result <==> (len(sig) == 64 && bip340_ok(os2ip(k.xBytes[0:32]), abs(k.point), bstr(msg), os2ip(sig[0:32]), os2ip(sig[32:64])))
+//@
+//@ type SchnorrPrivateKey
+//@   inv !isnil(self.dPrime) && !isnil(self.d) && !isnil(self.publicKey) && val(self.dPrime) != 0 && val(self.d) != 0
+//@   inv abs(self.publicKey.point) == smul(val(self.d), G) && (val(self.d) == val(self.dPrime) || val(self.d) == 0 - val(self.dPrime))
+//@
+//@ func verifySchnorrSelf
+//@   props C14
+//@   inline
+//@
+//@ func signSchnorr
+//@   props C14
+//@   option digits
+//@   split case result1 == nil
+//@   apply rnz@R: smul_nonzero(val(kPrime), G)
+//@   apply rneg@R: neg_point(smul(val(kPrime), G))
+//@   using gen_not_identity()
+//@   ensures (result1 == nil) <==> (bip340_kprime(os2ip(auxRand), lift(val(sk.d)), os2ip(sk.publicKey.xBytes[0:32]), bstr(msg)) != 0)
+//@   ensures result1 == nil ==> len(result0) == 64 && os2ip(result0[0:32]) == lift(affx(smul(bip340_kprime(os2ip(auxRand), lift(val(sk.d)), os2ip(sk.publicKey.xBytes[0:32]), bstr(msg)), G)))
+//@   ensures result1 == nil ==> fn(os2ip(result0[32:64])) == bip340_k(bip340_kprime(os2ip(auxRand), lift(val(sk.d)), os2ip(sk.publicKey.xBytes[0:32]), bstr(msg))) + bip340_e(lift(affx(smul(bip340_kprime(os2ip(auxRand), lift(val(sk.d)), os2ip(sk.publicKey.xBytes[0:32]), bstr(msg)), G))), os2ip(sk.publicKey.xBytes[0:32]), bstr(msg)) * val(sk.d) && os2ip(result0[32:64]) < N
+//@   ensures result1 == nil ==> bip340_ok(os2ip(sk.publicKey.xBytes[0:32]), abs(sk.publicKey.point), bstr(msg), os2ip(result0[0:32]), os2ip(result0[32:64]))
+//@   ensures result1 != nil ==> result0 == nil
+//@   ensures !errIs(result1, errSigCheckFailed)
+//@   fresh result0
+//@
+//@ func (*SchnorrPrivateKey).Sign
+//@   props C14
+//@   option digits
+//@   split nil rand
+//@   split case result1 == nil
+//@   ensures (!isnil(rand) && result1 == nil) ==> bip340_kprime(rdint(old(rdstate(rand)), 32), lift(val(k.d)), os2ip(k.publicKey.xBytes[0:32]), bstr(msg)) != 0 && len(result0) == 64 && os2ip(result0[0:32]) == lift(affx(smul(bip340_kprime(rdint(old(rdstate(rand)), 32), lift(val(k.d)), os2ip(k.publicKey.xBytes[0:32]), bstr(msg)), G))) && rdstate(rand) == rdnext(old(rdstate(rand)), 32)
+//@   ensures (!isnil(rand) && result1 == nil) ==> fn(os2ip(result0[32:64])) == bip340_k(bip340_kprime(rdint(old(rdstate(rand)), 32), lift(val(k.d)), os2ip(k.publicKey.xBytes[0:32]), bstr(msg))) + bip340_e(lift(affx(smul(bip340_kprime(rdint(old(rdstate(rand)), 32), lift(val(k.d)), os2ip(k.publicKey.xBytes[0:32]), bstr(msg)), G))), os2ip(k.publicKey.xBytes[0:32]), bstr(msg)) * val(k.d)
+//@   ensures result1 == nil ==> len(result0) == 64 && bip340_ok(os2ip(k.publicKey.xBytes[0:32]), abs(k.publicKey.point), bstr(msg), os2ip(result0[0:32]), os2ip(result0[32:64]))
+//@   ensures result1 != nil ==> result0 == nil
+//@   ensures !errIs(result1, errSigCheckFailed)
+//@   modifies rdstate(rand), rdstate(osrand())
+//@   fresh result0
+//@
+//@ func NewSchnorrPublicKey
+//@   props C13
+//@   split case len(key) == 32
+//@   split case len(key) == 32 && os2ip(key[0:32]) < P && issq(pow(fp(os2ip(key[0:32])), 3) + 7)
+//@   ensures (len(key) == 32 && os2ip(key[0:32]) < P && issq(pow(fp(os2ip(key[0:32])), 3) + 7)) <==> (result1 == nil)
+//@   ensures result1 == nil ==> os2ip(result0.xBytes[0:32]) == os2ip(key[0:32]) && fresh(result0.xBytes) && fresh(result0.point)
+//@   ensures result1 != nil ==> result0 == nil
+//@   apply coords@pt: aff_coords(val(pt.x), val(pt.y))
+//@   fresh result0
+//@
+//@ func NewSchnorrPublicKeyFromPoint
+//@   props C14 C18
+//@   panics !point.isValid
+//@   split case abs(point) == O
+//@   ensures (abs(point) == O) <==> (result1 != nil)
+//@   ensures result1 == nil ==> abs(result0.point) == ite(lift(affy(abs(point))) % 2 == 0, abs(point), pneg(abs(point))) && fresh(result0.xBytes) && fresh(result0.point)
+//@   ensures result1 != nil ==> result0 == nil
+//@   using neg_point(abs(point))
+//@   fresh result0
+//@
+//@ func NewSchnorrPrivateKeyFromECDSA
+//@   props C14 C18
+//@   requires !isnil(sk)
+//@   ensures val(result.dPrime) == val(sk.scalar) && fresh(result.dPrime) && fresh(result.d) && fresh(result.publicKey)
+//@   ensures val(result.d) == ite(lift(affy(smul(val(sk.scalar), G))) % 2 == 0, val(sk.scalar), 0 - val(sk.scalar))
+//@   using neg_point(smul(val(sk.scalar), G))
+//@   fresh result
+//@
+//@ func (*SchnorrPublicKey).Bytes
+//@   props C14 C18
+//@   ensures len(result) == 32 && os2ip(result[0:32]) == os2ip(k.xBytes[0:32])
+//@   fresh result
+//@
+//@ func (*SchnorrPublicKey).Point
+//@   props C14 C18
+//@   ensures result.isValid && abs(result) == abs(k.point)
+//@   fresh result
+//@
+//@ func (*SchnorrPrivateKey).PublicKey
+//@   props C14
+//@   ensures result == k.publicKey
+//@
+//@ func (*SchnorrPrivateKey).Bytes
+//@   props C14 C18
+//@   ensures len(result) == 32 && os2ip(result) == lift(val(k.dPrime))
+//@   fresh result
+//@
+//@ func (*SchnorrPrivateKey).Scalar
+//@   props C14 C18
+//@   ensures val(result) == val(k.dPrime)
+//@   fresh result
+//@
+//@ func verifLemmaSchnorrSignVerifies
+//@   props C14 C13
+//@   split nil rand
+//@   reach signed@sig: len(sig) == 64
+//@   ensures result
+//@   modifies rdstate(rand), rdstate(osrand())
